@@ -22,6 +22,14 @@
 (*          [e |-> "list", items] [e |-> "cstar"] [e |-> "agg", f, a, d]       *)
 (*          [e |-> "none"] (no WHERE)                                          *)
 (* D is the set of enabled known deviations (KF_ names); {} = openCypher.      *)
+(* Each deviation is the model of one recorded defect of the engine and        *)
+(* changes exactly the operator that names it: KF_C01_MultiLabelUnion /        *)
+(* CountMin (LabelsOK, CountMinTable), KF_C01_RelIsoPerPathOnly (MatchExt),    *)
+(* KF_C01_KeysCompareStructurally (EquivD), KF_C01_VarLengthReachability       *)
+(* (SegExt), KF_C02_IndexStorageOrder / IndexStaleEntries (IxMult,             *)
+(* IndexVariants), KF_C02_NativePlannerDropsPatternDetails (NativeClause),     *)
+(* KF_C02_ParallelFilterSwallowsErrors (WhereD; repaired, kept for the         *)
+(* self-test).                                                                  *)
 EXTENDS Values, TLC
 
 VErr == [k |-> "ERR", n |-> 0, s |-> ""]
@@ -129,8 +137,8 @@ StorageCmp(op, v, lit) ==
 \* what the indexes would hold if they followed the graph exactly
 IdealIdx(G) == {[lb |-> lb, key |-> key, v |-> G.nodes[h].props[key], id |-> G.nid[h]] :
                    h \in {h \in DOMAIN G.nodes : G.nodes[h].live}, lb \in {"A", "B"}, key \in {"p", "q"}}
-\* (entries of labels the node does not carry / of absent properties are filtered where the content is used)
-\* KF_C02_IndexStaleEntries: the physical content (entries survive REMOVE, label removal and id reuse);
+\* the number of index entries that deliver node h for the scan ix = [lb, key, op, v].
+\* KF_C02_IndexStaleEntries: the physical content G.idx (entries survive REMOVE, label removal and id reuse);
 \* KF_C02_IndexStorageOrder: keys are compared by storage order (2 and 2.0 are different keys, other types are in range)
 IxMult(G, ix, h, D) ==
     LET content == IF "KF_C02_IndexStaleEntries" \in D THEN G.idx
@@ -273,12 +281,10 @@ NativeVariants(c, D) ==
 
 \* ---- C02 index deviations: a node position that carries a label and a predicate `x.key op literal` (inline property or
 \* top-level AND conjunct of the WHERE) may be answered by an index scan on (its first label, key): the candidates are
-\* whatever the index delivers (IxMult), the predicate and that label are not checked again.
+\* whatever the index delivers (IxMult); that label is not checked again; an inline property is not checked again
+\* either, a WHERE conjunct still is (the planner keeps it in the Filter above the scan).
 RECURSIVE Conjuncts(_)
 Conjuncts(x) == IF x.e = "and" THEN Conjuncts(x.a) \cup Conjuncts(x.b) ELSE {x}
-RECURSIVE DropConj(_, _)
-DropConj(x, t) == IF x = t THEN [e |-> "lit", v |-> VBool(TRUE)]
-                  ELSE IF x.e = "and" THEN [x EXCEPT !.a = DropConj(x.a, t), !.b = DropConj(x.b, t)] ELSE x
 FlipOp(op) == CASE op = "<" -> ">" [] op = "<=" -> ">=" [] op = ">" -> "<" [] op = ">=" -> "<=" [] OTHER -> op
 IxOps == {"=", "<", "<=", ">", ">="}
 \* the index predicates of variable x among the conjuncts of w: <<conjunct, key, op, literal>>
@@ -297,7 +303,7 @@ IndexVariants(c, D) ==
         IN IF np.x = "" \/ np.labels = <<>> THEN {}
            ELSE {put(withIx([rest EXCEPT !.props = SelectSeq(np.props, LAMBDA kv : kv # np.props[k])], np.props[k].key, "=", np.props[k].v.v)) :
                     k \in {k \in DOMAIN np.props : np.props[k].v.e = "lit"}}
-                \cup {[put(withIx(rest, t[2], t[3], t[4])) EXCEPT !.where = DropConj(c.where, t[1])] : t \in WherePreds(c.where, np.x)}
+                \cup {put(withIx(rest, t[2], t[3], t[4])) : t \in WherePreds(c.where, np.x)}
         : ij \in {ij \in (DOMAIN c.paths) \X (1..4) : ij[2] <= Len(c.paths[ij[1]].segs) + 1}}
 \* every way the enabled deviations may have planned the MATCH clause
 ClauseVariants(c, D) == UNION {IndexVariants(c2, D) : c2 \in NativeVariants(c, D)}
